@@ -15,6 +15,16 @@ CHECKS = [
   "note": COMMON_NOTE + " Rounding accuracy ('to floating-point accuracy') is NOT decided: arithmetic is over the reals. Observations are "
           "assumed finite (precondition).",
   "technique": "deductive verification: representation invariant + ghost observation state, obligations discharged by z3 (exact field-identity step + QF_NRA)"},
+ {"property_id": "C10",
+  "text": "Every function of WeightedTally and TimestampWeightedTally is verified against a contract whose representation invariant ties "
+          "the stored sums to ghost sums over the positively weighted observations (sum w, sum wx, sum wx^2), min/max over all values; "
+          "zero-weight frame clause; getters total with the documented formulas; timestamped variant: total weight telescopes to "
+          "last-first, the weighted sum accumulates value*(elapsed time), earlier timestamps rejected with strict frame, inactive => only "
+          "last value changes. All histories by induction over the invariant.",
+  "design_ref": "DESIGN.md section 6 C10",
+  "note": COMMON_NOTE + " Rounding not decided (reals). That a finite sum of rectangle areas is the integral of the step function is the "
+          "definition used. Observations/weights/timestamps are plain finite int/float (not Quantity instances).",
+  "technique": "deductive verification: representation invariant + ghost weighted sums, obligations discharged by z3 (exact field-identity step + QF_NRA)"},
 ]
 _claimed = {c["property_id"] for c in CHECKS}
 NOT_APPLICABLE = [
